@@ -143,6 +143,11 @@ def run(ctx):
 
     # ---------------------------------------------------------------- M1
     common.from_exception_total(ctx, esc, 'M1')
+    # the window is per IKE_SA: what is answered from `last_sent_response_data` is a copy of the request *this* IKE_SA answered.  An
+    # IKE_SA_INIT request therefore always gets an IkeSa of its own (shared with C16 D1) - handed to one the controller already holds
+    # it would be taken for a retransmission of that one's request and answered with a response made for somebody else
+    from .c16 import init_request_gets_fresh_ike_sa
+    init_request_gets_fresh_ike_sa(ctx, 'M1')
     preq = ctx.func('ikesa.IkeSa._process_request')
     g, hnodes = window(ctx, 'M1', preq, 'peer_msg_id', is_handler, 'last_sent_response_data')
     incs = [n for n in g.nodes if self_store(n, preq) == 'peer_msg_id']
